@@ -83,14 +83,14 @@ def run(chk, repo):
     chk.rule("C01-R6", "shape, type code, record count/length and byte ranges are wired to the right header/record fields", 9)
     chk.rule("C01-R7", "one chunk size keys both the offsets table and the row grouping", 4)
     chk.rule("C01-R8", "range helpers equal their specification (normal form)", 6)
-    r1(chk, repo)
-    r2(chk, repo)
-    r3(chk, repo, L)
-    r4(chk, repo, L)
-    r5(chk, repo, L)
-    r6(chk, repo, L)
-    r7(chk, repo)
-    r8(chk, repo)
+    chk.attempt(r1, chk, repo)
+    chk.attempt(r2, chk, repo)
+    chk.attempt(r3, chk, repo, L)
+    chk.attempt(r4, chk, repo, L)
+    chk.attempt(r5, chk, repo, L)
+    chk.attempt(r6, chk, repo, L)
+    chk.attempt(r7, chk, repo)
+    chk.attempt(r8, chk, repo)
     chk.count("functions", 20)
 
 
@@ -297,7 +297,7 @@ def r5(chk, repo, L):
             comp = p
             break
     if comp is None or len(comp.generators) != 1:
-        raise AnalysisError("adjust_offsets is not applied inside a single comprehension over (records, offset)")
+        return r5_loop_form(chk, repo, rm, target, dsize)
     gen = comp.generators[0]
     z = gen.iter
     ok_zip = isinstance(z, ast.Call) and isinstance(z.func, ast.Name) and z.func.id == "zip" and len(z.args) == 2 and isinstance(gen.target, ast.Tuple) and len(gen.target.elts) == 2
@@ -316,45 +316,72 @@ def r5(chk, repo, L):
     offs = z.args[1]
     if isinstance(offs, ast.Name):
         offs = flow.reaching_def(offs.id, z.args[1])
-    ok_form = False
     detail = short(offs, 80) if offs is not None else "?"
-    if isinstance(offs, (ast.ListComp, ast.GeneratorExp)) and len(offs.generators) == 1 and not offs.generators[0].ifs:
-        g = offs.generators[0]
-        it = g.iter
-        acc_ok = isinstance(it, ast.Call) and norm(it.func).endswith("accumulate") and len(it.args) == 1 and any(k.arg == "initial" and isinstance(k.value, ast.Constant) and k.value.value == 0 for k in it.keywords)
-        try:
-            c = Canon({})
-            env = {}
-            c.bind_target(g.target, env)
-            c2 = c.child(env)
-            term = c2(flow.expand(offs.elt, stop={x.id for x in ast.walk(g.target) if isinstance(x, ast.Name)}))
-            accv = c2.target_shape(g.target, env)
-        except Undecidable as e:
-            raise AnalysisError(f"{where}: chunk offset expression outside the fragment: {e}")
-        # term must be poly {(acc, record_size): 1, (): dsize}
-        if term[0] == "poly":
-            d = dict(term[1])
-            const_term = d.pop((), 0)
-            monos = list(d.items())
-            rec_atom_ok = len(monos) == 1 and monos[0][1] == 1 and len(monos[0][0]) == 2 and accv in monos[0][0] \
-                and any(a[0] == "sub" and a[2] == ("const", "str", "sar_data_record_length") for a in monos[0][0])
-            ok_form = acc_ok and rec_atom_ok and const_term == dsize
-            detail = f"{show(term)} over accumulate(chunksizes, initial=0): constant term {const_term}, descriptor size {dsize}"
-        # same chunksizes that drive the reads
-        if ok_form:
-            src = norm(it.args[0])
-            reads_iter = None
-            for cc in calls_in(rm):
-                if isinstance(cc.func, ast.Attribute) and cc.func.attr == "read":
-                    for p in __import__("vlib.core", fromlist=["parents"]).parents(cc):
-                        if isinstance(p, (ast.GeneratorExp, ast.ListComp)):
-                            reads_iter = norm(p.generators[0].iter)
-                            break
-            ok_form = reads_iter == src
-            if not ok_form:
-                detail += f"; offsets accumulate {src} but reads iterate {reads_iter}"
-    chk.require(ok_form, "C01-R5", where, f"chunk offset = running record count * record length + {dsize}: {detail}",
-                f"chunk offsets are {detail}: byte ranges are not absolute file offsets", key="read_metadata:chunk-offsets", sample={"expr": detail})
+    if not (isinstance(offs, (ast.ListComp, ast.GeneratorExp)) and len(offs.generators) == 1 and not offs.generators[0].ifs):
+        raise AnalysisError(f"{where}: chunk offsets are {detail}: not a recognised form (comprehension over a running sum)")
+    g = offs.generators[0]
+    it = g.iter
+    try:
+        c = Canon({})
+        env = {}
+        c.bind_target(g.target, env)
+        c2 = c.child(env)
+        term = c2(flow.expand(offs.elt, stop={x.id for x in ast.walk(g.target) if isinstance(x, ast.Name)}))
+        accv = c2.target_shape(g.target, env)
+    except Undecidable as e:
+        raise AnalysisError(f"{where}: chunk offset expression outside the fragment: {e}")
+    if term[0] != "poly":
+        raise AnalysisError(f"{where}: chunk offset element {show(term)} is not an arithmetic expression")
+    d = dict(term[1])
+    const_term = d.pop((), 0)
+    monos = list(d.items())
+    rec_atom_ok = len(monos) == 1 and monos[0][1] == 1 and len(monos[0][0]) == 2 and accv in monos[0][0] \
+        and any(a[0] == "sub" and a[2] == ("const", "str", "sar_data_record_length") for a in monos[0][0])
+    chk.require(rec_atom_ok and const_term == dsize, "C01-R5", where,
+                f"chunk offset = <records before the chunk> * record length + {dsize} ({show(term)})",
+                f"chunk offset element is {show(term)}: expected <records before the chunk> * header['sar_data_record_length'] + {dsize} "
+                f"(the size of the file descriptor): byte ranges are not absolute file offsets", key="read_metadata:chunk-offsets",
+                sample={"expr": show(term)})
+    # what the reads iterate over
+    reads_iter_node = None
+    for cc in calls_in(rm):
+        if isinstance(cc.func, ast.Attribute) and cc.func.attr == "read":
+            for p in __import__("vlib.core", fromlist=["parents"]).parents(cc):
+                if isinstance(p, (ast.GeneratorExp, ast.ListComp)):
+                    reads_iter_node = p.generators[0].iter
+                    break
+    if reads_iter_node is None:
+        raise AnalysisError(f"{where}: the chunk reads are not in a comprehension over the chunk sizes")
+    is_acc = isinstance(it, ast.Call) and norm(it.func).endswith("accumulate")
+    is_range = isinstance(it, ast.Call) and norm(it.func) == "range" and len(it.args) == 3
+    if is_acc:
+        init0 = any(k.arg == "initial" and isinstance(k.value, ast.Constant) and k.value.value == 0 for k in it.keywords)
+        same_src = len(it.args) == 1 and norm(it.args[0]) == norm(reads_iter_node)
+        chk.require(init0 and same_src, "C01-R5", where, f"offsets are the running sum (initial=0) of {norm(reads_iter_node)}, the very sizes that are read",
+                    f"offsets accumulate {short(it, 60)} but the reads iterate {norm(reads_iter_node)}: offsets do not advance by the bytes read", key="read_metadata:offsets-vs-reads")
+    elif is_range:
+        # start positions of a strided range: the sizes read must come from the same stride
+        sizes = flow.reaching_def(reads_iter_node.id, reads_iter_node) if isinstance(reads_iter_node, ast.Name) else reads_iter_node
+        ok_stride = False
+        why = f"reads iterate {short(sizes, 60) if sizes is not None else norm(reads_iter_node)}"
+        if isinstance(sizes, (ast.ListComp, ast.GeneratorExp)) and len(sizes.generators) == 1:
+            it2 = sizes.generators[0].iter
+            if isinstance(it2, ast.Call) and norm(it2.func) == "range" and len(it2.args) == 3:
+                try:
+                    a1 = [Canon({})(flow.expand(x)) for x in it.args]
+                    a2 = [Canon({})(flow.expand(x)) for x in it2.args]
+                    ok_stride = a1 == a2
+                    why = f"offsets step by {show(a1[2])}, reads by {show(a2[2])}"
+                except Undecidable:
+                    pass
+            else:
+                raise AnalysisError(f"{where}: offsets come from {short(it, 50)} but the reads' sizes from {short(it2, 50)}: relation not decidable")
+        else:
+            raise AnalysisError(f"{where}: offsets come from {short(it, 50)}; the sizes read are not a comprehension over the same range")
+        chk.require(ok_stride, "C01-R5", where, f"offsets and read sizes walk the same strided range ({why})",
+                    f"offsets and read sizes use different strides ({why}): after the first request the byte ranges point at other lines", key="read_metadata:offsets-vs-reads")
+    else:
+        raise AnalysisError(f"{where}: chunk offsets iterate {short(it, 60)}: not a recognised running sum")
     # raw_metadata is the first zip argument: parse_chunk(f.read(...), record_size)
     first = z.args[0]
     if isinstance(first, ast.Name):
@@ -409,6 +436,8 @@ def r6(chk, repo, L):
     # the count drives the chunk sizes, the length the read sizes
     nrec = [name for name, ent in rm.local_bindings().items() for k, v in ent if k == "assign" and isinstance(v, ast.Subscript) and const_str(v.slice) == "number_of_sar_data_records"]
     cs_def = flow.single_def("chunksizes")
+    if cs_def is None:
+        raise AnalysisError(f"{io.relpath}:read_metadata: no `chunksizes` list any more; dependence of the request sizes on the record count not decided")
     ok = bool(nrec) and cs_def is not None and nrec[0] in {x.id for x in ast.walk(flow.expand(cs_def)) if isinstance(x, ast.Name)} | {x.id for x in ast.walk(cs_def) if isinstance(x, ast.Name)}
     chk.require(ok, "C01-R6", f"{io.relpath}:read_metadata", "chunk sizes are derived from the header's record count", "chunk sizes do not depend on the header's record count", key="read_metadata:chunksizes-from-count")
     # byte ranges
@@ -559,7 +588,7 @@ def chunk_sizes_spec(chk, repo):
     where = f"{io.relpath}:read_metadata"
     flow = Flow(rm)
     env = {"records_per_chunk": ("param", 0), "n_records": ("param", 1), "n_chunks": ("param", 2)}
-    for var, spec, stop in (("chunksizes", CHUNKSIZES_SPEC, ("n_chunks", "n_records", "record_size")), ("n_chunks", NCHUNKS_SPEC, ("n_records",))):
+    for var, spec, stop in (("chunksizes", CHUNKSIZES_SPEC, ("n_chunks", "n_records", "record_size", "records_per_chunk")), ("n_chunks", NCHUNKS_SPEC, ("n_records", "records_per_chunk"))):
         d = flow.single_def(var)
         if d is None:
             raise AnalysisError(f"anchor vanished: {var} in read_metadata")
@@ -574,3 +603,42 @@ def chunk_sizes_spec(chk, repo):
         chk.require(verdict == "equal", "C01-R8", where, f"{var} equals the reference formula ({show(want)[:100]})",
                     f"{var} = {show(got)[:200]} differs from the reference formula {show(want)[:200]}: some admissible (lines, records_per_chunk) pair is read with wrong chunk sizes",
                     key=f"spec:read_metadata:{var}", sample={"variable": var, "normal form": show(got)[:160]})
+
+
+def r5_loop_form(chk, repo, rm, adjust_call, dsize):
+    """read_metadata written as an explicit loop: the running offset must start at the descriptor size and
+    advance by exactly the number of bytes read in each iteration"""
+    from ..core import parents
+    from ..interproc import bind_args
+    where = f"{rm.module.relpath}:read_metadata"
+    flow = Flow(rm)
+    loop = None
+    for p in parents(adjust_call):
+        if isinstance(p, (ast.While, ast.For)):
+            loop = p
+            break
+    if loop is None:
+        raise AnalysisError(f"{where}: adjust_offsets is neither in a comprehension over (records, offset) nor in a loop")
+    b = {}
+    for cal in resolve_callees(repo, rm, adjust_call.func):
+        b, _ = bind_args(cal, adjust_call)
+    off = b.get("offset")
+    if not isinstance(off, ast.Name):
+        raise AnalysisError(f"{where}: the rebasing offset is {short(off, 40) if off is not None else None}, not a running variable")
+    reads = [n for st in loop.body for n in ast.walk(st) if isinstance(n, ast.Call) and isinstance(n.func, ast.Attribute) and n.func.attr == "read" and n.args]
+    incs = [n for st in loop.body for n in ast.walk(st) if isinstance(n, ast.AugAssign) and isinstance(n.target, ast.Name) and n.target.id == off.id and isinstance(n.op, ast.Add)]
+    if len(reads) != 1 or len(incs) != 1:
+        raise AnalysisError(f"{where}: loop with {len(reads)} reads and {len(incs)} increments of {off.id}: not decided")
+    stop = {x.id for x in ast.walk(loop) if isinstance(x, ast.Name) and isinstance(x.ctx, ast.Store)}
+    try:
+        read_size = Canon({})(flow.expand(reads[0].args[0], stop=stop))
+        inc = Canon({})(flow.expand(incs[0].value, stop=stop))
+    except Undecidable as e:
+        raise AnalysisError(f"{where}: loop arithmetic outside the fragment: {e}")
+    chk.require(read_size == inc, "C01-R5", where, f"each iteration reads {show(read_size)} bytes and advances the rebasing offset by the same amount",
+                f"each iteration reads {show(read_size)} bytes but advances the rebasing offset by {show(inc)}: once the two differ, the byte ranges of later lines point at other lines",
+                key="read_metadata:offsets-vs-reads", sample={"read": show(read_size), "increment": show(inc)})
+    init = [n for n in rm.own_nodes() if isinstance(n, ast.Assign) and isinstance(n.targets[0], ast.Name) and n.targets[0].id == off.id and n.lineno < loop.lineno]
+    ok0 = len(init) == 1 and isinstance(init[0].value, ast.Constant) and init[0].value.value == dsize
+    chk.require(ok0, "C01-R5", where, f"the rebasing offset starts at the descriptor size {dsize}",
+                f"the rebasing offset starts at {short(init[0].value, 30) if init else None}, the file descriptor is {dsize} bytes", key="read_metadata:chunk-offsets")
